@@ -7,7 +7,7 @@ variable {α : Type}
 structure Row (α : Type) where
   x : List α
   u : List α
-deriving Repr
+deriving Repr, DecidableEq
 
 abbrev Ep (α : Type) := List (Row α)
 
